@@ -8,6 +8,67 @@ import (
 
 func init() {
 	replayers["U8R"] = func(c *ctx, in []string) { u8r(c, unhx(in[0]), in[1], in[2]) }
+	replayers["U8RS"] = func(c *ctx, in []string) { u8rs(c, unhx(in[0]), unhx(in[1]), in[2]) }
+	runC18R = runC18Rimpl
+}
+
+// U8RS / CRRS: a UTF8Reader (and a CipherReader) that has read [before], is Reset onto a new
+// source and then reads [after] — side by side with fresh readers reading [after]
+func u8rs(c *ctx, before, after []byte, bufs string) {
+	drive := func(u *wsutil.UTF8Reader, n int) (out []byte, e string) {
+		bs := intsSpec(bufs)
+		var err error
+		for i := 0; i < n+5; i++ {
+			buf := make([]byte, bs[i%len(bs)])
+			var k int
+			k, err = u.Read(buf)
+			out = append(out, buf[:k]...)
+			if err != nil {
+				break
+			}
+		}
+		e = "other"
+		if err == io.EOF {
+			e = "eof"
+		} else if err == wsutil.ErrInvalidUTF8 {
+			e = "invalidutf8"
+		}
+		return
+	}
+	a := wsutil.NewUTF8Reader(newChunkReader(before, "-", "eof"))
+	drive(a, len(before))
+	a.Reset(newChunkReader(after, "r3", "eof"))
+	a0v, a0a := a.Valid(), a.Accepted()
+	ao, ae := drive(a, len(after))
+	f := wsutil.NewUTF8Reader(newChunkReader(after, "r3", "eof"))
+	f0v, f0a := f.Valid(), f.Accepted()
+	fo, fe := drive(f, len(after))
+	// CipherReader likewise
+	key := [4]byte{9, 8, 7, 6}
+	cr := wsutil.NewCipherReader(newChunkReader(before, "-", "eof"), [4]byte{1, 2, 3, 4})
+	tmp := make([]byte, len(before)+1)
+	cr.Read(tmp)
+	cr.Reset(newChunkReader(after, "-", "eof"), key)
+	x := make([]byte, len(after)+1)
+	xn, _ := cr.Read(x)
+	cf := wsutil.NewCipherReader(newChunkReader(after, "-", "eof"), key)
+	y := make([]byte, len(after)+1)
+	yn, _ := cf.Read(y)
+	c.emit("U8RS %s %s %s -> %d.%d.%s.%s.%d.%d %d.%d.%s.%s.%d.%d %s %s", hx(before), hx(after), bufs,
+		b2i(a0v), a0a, hx(ao), ae, b2i(a.Valid()), a.Accepted(),
+		b2i(f0v), f0a, hx(fo), fe, b2i(f.Valid()), f.Accepted(), hx(x[:xn]), hx(y[:yn]))
+}
+
+func runC18Rimpl(c *ctx) {
+	n := 150
+	if c.thor {
+		n = 3000
+	}
+	for i := 0; i < n; i++ {
+		u8rs(c, randUtf8ish(c, 1+c.rng.Intn(10)), randUtf8ish(c, c.rng.Intn(10)), bufSpecs[c.rng.Intn(len(bufSpecs))])
+	}
+	u8rs(c, []byte("abc"), nil, "4096")
+	u8rs(c, []byte("\xe2\x82"), []byte("\xac"), "1")
 }
 
 // standalone UTF8Reader over a chunked source with caller buffers
